@@ -3,9 +3,9 @@
 //
 // Model checking in the bounded-exhaustive form (engine E2-space):
 //   (a) sections keysets/<class>: ALL keysets of size 1 and 2 over {key types of the class} x {variants the
-//       type admits} x {ENABLED, DISABLED, DESTROYED} x ids {0, 1, 0xFFFFFFFF} x material {0,1} x every
+//       type admits} x {ENABLED, DISABLED, DESTROYED} x ids {0, 1, 0xFFFFFFFF (+ 0x01000000 thorough, fast classes)} x material {0,1} x every
 //       admissible primary x both orders (distinct ids), size 3 over a reduced positional alphabet;
-//   (b) sections rotation/<class>: BFS to fixpoint over keyset.Manager histories (Add <= 3 keys,
+//   (b) sections rotation/<class> (and rotation4/<class>, thorough): BFS to fixpoint over keyset.Manager histories (Add <= 3 / 4 keys,
 //       SetPrimary / Enable / Disable / Delete of the i-th created key); every reached state with a
 //       primary is checked with the universe of all keys that ever existed plus foreign keys.
 // For every keyset the wrapped primitive is built with tink's factory, its output is judged (framing
@@ -332,10 +332,15 @@ func (c *class) forcedCiphertext(r ref.SelKey, pre []byte) ([]byte, error) {
 
 type stats struct{ probes, accepted, rejected, forced int }
 
-var sampleAt = map[string]int64{"aead": 90001, "mac": 150001, "signature": 210001, "jwtmac": 30001, "streamingaead": 1501}
+var sampleAt = map[string]int64{"mac": 150001, "signature": 210001, "jwtmac": 30001, "streamingaead": 1501}
 
 func sampleRecord(c *class, es []ref.SelEntry, p probeT, verdict bool, ids []uint32) {
-	if at, ok := sampleAt[c.name]; !ok || c.sampleCount.Add(1) != at {
+	if c.name == "aead" {
+		// the first probe whose IV was forced through the entropy tape
+		if p.note == "" || !c.sampleCount.CompareAndSwap(0, 1) {
+			return
+		}
+	} else if at, ok := sampleAt[c.name]; !ok || c.sampleCount.Add(1) != at {
 		return
 	}
 	h.MCSample(map[string]any{"class": c.name, "keyset": keysetDesc(es), "probe_made_by": keyDesc(p.maker) + p.note, "accepted": verdict, "model_acceptor_ids": fmt.Sprintf("%x", ids)})
@@ -575,7 +580,7 @@ func (c *class) alphabet(thorough bool, size, pos int) []letter {
 	}
 	key := ak{c, thorough, size, pos}
 	if size < 3 {
-		key.pos, key.size = 0, 1
+		key.pos, key.size = 0, 1 // sizes 1 and 2 share one alphabet
 	}
 	if v, ok := alphaCache.Load(key); ok {
 		return v.([]letter)
@@ -583,6 +588,9 @@ func (c *class) alphabet(thorough bool, size, pos int) []letter {
 	var out []letter
 	if size < 3 {
 		ids := []uint32{0, 1, 0xFFFFFFFF}
+		if thorough && !c.slow {
+			ids = append(ids, 0x01000000) // TINK prefix 01 01 00 00 00 / CRUNCHY prefix 00 01 00 00 00
+		}
 		for sh := range c.shapes {
 			for _, st := range []int{ref.SelEnabled, ref.SelDisabled, ref.SelDestroyed} {
 				for _, id := range ids {
@@ -678,7 +686,7 @@ func keysetsBody(c *class) func(x *h.X) {
 
 // ---- (b) rotation histories --------------------------------------------------------------------------------
 
-var rotIDs = []uint32{7, 0xFFFFFFFF, 0x01000000} // id requirement of the i-th created key (if its shape has one)
+var rotIDs = []uint32{7, 0xFFFFFFFF, 0x01000000, 0} // id requirement of the i-th created key (if its shape has one)
 
 const rotForeignMat = 9
 
@@ -689,20 +697,22 @@ type rkey struct {
 }
 
 type rotation struct {
-	c    *class
-	adds []int // shape indices of the Add alphabet
+	c       *class
+	section string
+	maxKeys int
+	adds    []int // shape indices of the Add alphabet
 }
 
 var rotKinds = []string{"SetPrimary", "Enable", "Disable", "Delete"}
 
-func (r *rotation) numOps() int { return len(r.adds) + 4*3 }
+func (r *rotation) numOps() int { return len(r.adds) + 4*r.maxKeys }
 
 func (r *rotation) opName(o int) string {
 	if o < len(r.adds) {
 		return "Add(" + r.c.shapes[r.adds[o]].String() + ")"
 	}
 	o -= len(r.adds)
-	return fmt.Sprintf("%s(key#%d)", rotKinds[o/3], o%3)
+	return fmt.Sprintf("%s(key#%d)", rotKinds[o/r.maxKeys], o%r.maxKeys)
 }
 
 func (r *rotation) names(hist []int) []string {
@@ -720,7 +730,7 @@ func (r *rotation) run(hist []int, verbose bool) (string, bool, bool) {
 	}
 	rep := func(key, format string, a ...any) {
 		names := r.names(hist)
-		h.ReportExternal("rotation/"+c.name, key, fmt.Sprintf(format, a...)+"\n  history: "+strings.Join(names, " ; "), hist, names)
+		h.ReportExternal(r.section, key, fmt.Sprintf(format, a...)+"\n  history: "+strings.Join(names, " ; "), hist, names)
 	}
 	km := keyset.NewManager()
 	var ks []rkey
@@ -728,7 +738,7 @@ func (r *rotation) run(hist []int, verbose bool) (string, bool, bool) {
 		var err error
 		if o < len(r.adds) {
 			i := len(ks)
-			if i >= 3 {
+			if i >= r.maxKeys {
 				return "", false, false
 			}
 			k := c.shapes[r.adds[o]].key(rotIDs[i], i)
@@ -747,7 +757,7 @@ func (r *rotation) run(hist []int, verbose bool) (string, bool, bool) {
 				ks = append(ks, rkey{k: k, status: ref.SelEnabled})
 			}
 		} else {
-			kind, i := (o-len(r.adds))/3, (o-len(r.adds))%3
+			kind, i := (o-len(r.adds))/r.maxKeys, (o-len(r.adds))%r.maxKeys
 			if i >= len(ks) || ks[i].status == 0 {
 				return "", false, false
 			}
@@ -842,11 +852,11 @@ func (r *rotation) run(hist []int, verbose bool) (string, bool, bool) {
 	return state, true, false
 }
 
-func rotationBody(c *class) func(x *h.X) {
+func rotationBody(c *class, section string, maxKeys int, fullAlphabet bool) func(x *h.X) {
 	return func(x *h.X) {
-		r := &rotation{c: c}
+		r := &rotation{c: c, section: section, maxKeys: maxKeys}
 		for i, s := range c.shapes {
-			if x.Thorough() {
+			if fullAlphabet && x.Thorough() {
 				r.adds = append(r.adds, i)
 				continue
 			}
@@ -878,13 +888,10 @@ func rotationBody(c *class) func(x *h.X) {
 		x.Count("depth", st.Depth)
 		x.Count("add_alphabet", len(r.adds))
 		if !st.Fixpoint {
-			h.NotExhaustive("rotation/" + c.name + " stopped before the fixpoint: " + st.Capped)
+			h.NotExhaustive(section + " stopped before the fixpoint: " + st.Capped)
 		}
-		for i, sm := range st.Sample {
-			if i >= 1 && c.name != "aead" {
-				break
-			}
-			h.MCSample(map[string]any{"class": c.name, "history": r.names(sm)})
+		if n := len(st.Sample); n > 0 && section == "rotation/aead" {
+			h.MCSample(map[string]any{"class": c.name, "history": r.names(st.Sample[n-1])})
 		}
 	}
 }
@@ -901,9 +908,16 @@ func main() {
 		secs = append(secs, h.Section{Name: "keysets/" + c.name, Body: keysetsBody(c), Bound: -1})
 	}
 	for _, c := range classes {
-		secs = append(secs, h.Section{Name: "rotation/" + c.name, Body: rotationBody(c), Bound: -1, Serial: true})
+		secs = append(secs, h.Section{Name: "rotation/" + c.name, Body: rotationBody(c, "rotation/"+c.name, 3, true), Bound: -1, Serial: true})
+	}
+	for _, c := range classes {
+		if !c.slow {
+			// thorough only: histories with up to FOUR keys over the reduced Add alphabet
+			n := "rotation4/" + c.name
+			secs = append(secs, h.Section{Name: n, Body: rotationBody(c, n, 4, false), Bound: -1, Serial: true, Tiers: "thorough"})
+		}
 	}
 	h.Main("C05", "model_checking",
-		"per primitive class (AEAD, DAEAD, MAC, signature, hybrid, streaming AEAD, PRF set, JWT MAC, JWT signature; 2-3 key types each incl. legacy non-full primitives via KmsEnvelopeAeadKey / custom key managers): (a) all keysets of size 1-2 over {shapes} x {ENABLED,DISABLED,DESTROYED} x ids {0,1,0xFFFFFFFF} x material {0,1} x every primary x both orders, size 3 over a reduced alphabet; (b) BFS to fixpoint over keyset.Manager histories (<= 3 keys; SetPrimary/Enable/Disable/Delete). A state is one keyset / manager state; a transition is one probe (an output of a single key of the universe, or the wrapped primitive's own output judged by a single-key primitive) whose verdict and monitoring events are compared with the selection model verif/ref/selection.go. An execution is non-trivial when a wrapped primitive was built and probed.",
+		"per primitive class (AEAD, DAEAD, MAC, signature, hybrid, streaming AEAD, PRF set, JWT MAC, JWT signature; 2-3 key types each incl. legacy non-full primitives via KmsEnvelopeAeadKey / custom key managers): (a) all keysets of size 1-2 over {shapes} x {ENABLED,DISABLED,DESTROYED} x ids {0,1,0xFFFFFFFF} x material {0,1} x every primary x both orders, size 3 over a reduced alphabet; (b) BFS to fixpoint over keyset.Manager histories (<= 3 keys, thorough also <= 4 keys over a reduced Add alphabet; SetPrimary/Enable/Disable/Delete). A state is one keyset / manager state; a transition is one probe (an output of a single key of the universe, or the wrapped primitive's own output judged by a single-key primitive) whose verdict and monitoring events are compared with the selection model verif/ref/selection.go. An execution is non-trivial when a wrapped primitive was built and probed.",
 		secs)
 }
